@@ -230,6 +230,60 @@ def finish(chk):
     return rc
 
 
+def selftest(chk, pid, repo):
+    """thorough tier: mutation self-test.  Every seeded change that this property's check
+    is recorded to catch (seeded/INDEX.json) is applied to a scratch copy of the sources
+    (outside /repo, /verif and /tmp; removed afterwards) and the check is re-run on it: it
+    must report a violation.  A miss is a defect of the checker (ANALYSIS-ERROR), not of
+    cvxopt.  Seeds whose patch no longer applies to the current tree are skipped and listed."""
+    import shutil
+    import subprocess
+    import tempfile
+    from concurrent.futures import ThreadPoolExecutor
+    idx_path = os.path.join(VERIF, "seeded", "INDEX.json")
+    if not os.path.exists(idx_path):
+        return
+    with open(idx_path) as f:
+        idx = json.load(f)
+    seeds = sorted(s_ for s_, props in idx.items() if pid in props
+                   and os.path.exists(os.path.join(VERIF, "seeded", s_, "patch.diff")))
+    rule = chk.rule(pid + "-SELFTEST", "mutation self-test: each seeded change recorded for this property is reported on a scratch copy",
+                    "the checker detects realistic breaking changes (both directions tested)")
+    base = os.environ.get("VERIF_SCRATCH", "/var/tmp")
+
+    def one(seed):
+        d = tempfile.mkdtemp(prefix="verif-selftest-", dir=base)
+        try:
+            for sub in ("src", "doc"):
+                shutil.copytree(os.path.join(repo, sub), os.path.join(d, sub))
+            r = subprocess.run(["patch", "-p1", "-s", "-d", d, "-i", os.path.join(VERIF, "seeded", seed, "patch.diff")],
+                               stdout=subprocess.PIPE, stderr=subprocess.STDOUT, text=True)
+            if r.returncode != 0:
+                return seed, "skip", "patch does not apply to the current tree"
+            env = dict(os.environ, VERIF_SELFTEST="1", VERIF_NO_EVIDENCE="1")
+            c = subprocess.run([os.path.join(VERIF, "check"), pid, "--repo", d, "--tier", "quick"], stdout=subprocess.PIPE,
+                               stderr=subprocess.STDOUT, text=True, env=env)
+            fails = [l.strip() for l in c.stdout.splitlines() if l.startswith("  FAIL ")]
+            return seed, ("caught" if c.returncode == 1 and fails else "missed"), (fails[0][:160] if fails else "exit %d" % c.returncode)
+        finally:
+            shutil.rmtree(d, ignore_errors=True)
+    with ThreadPoolExecutor(max_workers=4) as ex:
+        results = list(ex.map(one, seeds))
+    missed = []
+    for seed, verdict, detail in results:
+        where = "seeded/%s/patch.diff" % seed
+        if verdict == "caught":
+            rule.ok("seed %s is reported" % seed, where, detail)
+        elif verdict == "skip":
+            rule.undecided("seed %s" % seed, where, detail)
+        else:
+            missed.append(seed)
+            rule.undecided("seed %s" % seed, where, "NOT reported: " + detail)
+    chk.note_analysed("selftest_seeds", len(seeds))
+    if missed:
+        raise AnalysisError("selftest-miss: seeded change(s) %s are no longer detected by %s" % (missed, pid))
+
+
 def run_main(pid, build, argv):
     """build(chk_args) -> Check.  Catches everything: a traceback is exit 2."""
     import argparse
@@ -243,8 +297,11 @@ def run_main(pid, build, argv):
         with open(a.replay) as f:
             only = json.load(f)["key"]
     try:
-        chk = build(a.tier if a.tier in ("quick", "thorough") else "quick", a.repo)
+        tier = a.tier if a.tier in ("quick", "thorough") else "quick"
+        chk = build(tier, a.repo)
         chk.only_key = only
+        if tier == "thorough" and not os.environ.get("VERIF_SELFTEST") and not only:
+            selftest(chk, pid, a.repo)
         return finish(chk)
     except AnalysisError as e:
         print("ANALYSIS-ERROR property=%s %s" % (pid, e))
